@@ -17,6 +17,8 @@ pub fn c06_configs(tier: Tier) -> Vec<OutCfg> {
             vec![SK::Q2Hold, SK::Q1],
             vec![SK::Q1Id(5), SK::Q1Id(5)],
             vec![SK::Q2Hold, SK::Q2Hold],
+            // a publish through the non-blocking API: its completion is the publish_ack_cb callback
+            vec![SK::Q1NoBlock, SK::Q1],
         ];
         if role == Role::Client {
             sets.push(vec![SK::Sub, SK::Q1]);
@@ -52,6 +54,7 @@ pub fn c06_configs(tier: Tier) -> Vec<OutCfg> {
         let mut conv: Vec<Vec<SK>> = vec![
             vec![SK::Q1Id(5), SK::Q1Id(5), SK::Q1],
             vec![SK::Q1Big, SK::Q1],
+            vec![SK::Q1NoBlock, SK::Q1Big, SK::Q1],
             vec![SK::Q1, SK::Q1Big, SK::Q2Rel],
             vec![SK::Q1BigId(5), SK::Q1Id(5)],
             // a streamed publish whose header cannot be written must not leave the sink in "payload owed" state
@@ -144,7 +147,7 @@ pub fn run_c06(tier: Tier) -> i32 {
     }
     // packet id wrap-around (one long deterministic history per role)
     crate::c06wrap::wraparound(&mut ck, tier);
-    ck.rule = "per role: 1-3 application sends over {QoS 1 auto id, QoS 1 caller-chosen id, QoS 2 with held receipt, (client) subscribe, unsubscribe} started in every order, interleaved with every peer sequence of up to 2 (quick) / 3 (thorough) acknowledgements over {PUBACK, PUBREC, PUBCOMP, (client) SUBACK, UNSUBACK} x id in {1, 2, 5, 9}; reference = two FIFO queues (sends awaiting their first ack in wire order; released QoS 2 awaiting PUBCOMP): an ack equal to the head completes exactly that send, anything else ends the connection with one protocol-error Stop and completes nothing; converse family with a correct in-order peer and sends that fail locally (id in use - also across publish / subscribe / unsubscribe with caller-chosen ids -, over maximum packet size, over-long filter); id wrap-around history".into();
+    ck.rule = "per role: 1-3 application sends over {QoS 1 auto id, QoS 1 caller-chosen id, QoS 1 through the non-blocking API (completion = the publish_ack_cb callback), QoS 2 with held receipt, (client) subscribe, unsubscribe} started in every order, interleaved with every peer sequence of up to 2 (quick) / 3 (thorough) acknowledgements over {PUBACK, PUBREC, PUBCOMP, (client) SUBACK, UNSUBACK} x id in {1, 2, 5, 9}; reference = two FIFO queues (sends awaiting their first ack in wire order; released QoS 2 awaiting PUBCOMP): an ack equal to the head completes exactly that send, anything else ends the connection with one protocol-error Stop and completes nothing; converse family with a correct in-order peer and sends that fail locally (id in use - also across publish / subscribe / unsubscribe with caller-chosen ids -, over maximum packet size, over-long filter); id wrap-around history".into();
     ck.assumptions = vec![
         "FIFO task order of ntex-rt; nondeterminism = timing of environment events (DESIGN 2.4)".into(),
         "hostile acknowledgements are written at quiescent points (the endpoint's queue then equals what is on the wire)".into(),
